@@ -24,6 +24,8 @@ type c12Req struct {
 	imp     bool
 	at      time.Duration
 	ownerUp bool
+	impUser string // the impersonated user ("bob" unless stated)
+	overlap bool   // issued while a request to another cluster was in flight
 }
 
 // RunC12: authentication and authorization decisions never cross clusters.
@@ -72,6 +74,9 @@ func RunC12(r *sim.Run) {
 			cl.Tokens[tok] = Ident{User: u}
 			userHist[name][tok] = []verRec{{0, u}}
 		}
+		// the same person holds an account in every cluster
+		cl.Tokens["ts"] = Ident{User: "carol"}
+		userHist[name]["ts"] = []verRec{{0, "carol"}}
 		cname := name
 		impHist[name] = []verRec{{0, []string{"allow", "deny"}[t.Draw(2)]}}
 		cl.SAR = func(spec authorizationSpec) string {
@@ -120,9 +125,9 @@ func RunC12(r *sim.Run) {
 
 	var reqs []*c12Req
 	nSteps := t.Range(15, 55)
-	moves, mutations := 0, 0
+	moves, mutations, twins := 0, 0, 0
 	for step := 0; step < nSteps; step++ {
-		weights := []int{12, 4, 2, 2, 1, 0}
+		weights := []int{12, 4, 2, 2, 1, 0, 2}
 		if extended {
 			weights[5] = 2
 		}
@@ -239,6 +244,44 @@ func RunC12(r *sim.Run) {
 			}
 			moves++
 			r.Logf("alias %s moved %s -> %s", floating, old, nw)
+		case 6: // the same user asks two clusters the same thing at the same time
+			var up []string
+			for _, n := range names {
+				if live[n] && reachable[n] {
+					up = append(up, n)
+				}
+			}
+			if len(up) < 2 {
+				break
+			}
+			i := t.Draw(len(up))
+			j := (i + 1 + t.Draw(len(up)-1)) % len(up)
+			twins++
+			who := fmt.Sprintf("twin%d", twins)
+			var pair []*c12Req
+			for k, n := range []string{up[i], up[j]} {
+				c := &c12Req{host: n, token: "ts", imp: true, impUser: who, overlap: true, owner: n, ownerUp: true, at: w.Now()}
+				c.q = &Req{ID: fmt.Sprintf("c%d", len(reqs)), Host: n, Method: "GET", Target: "/api/v1/namespaces/default/pods",
+					Headers: [][2]string{{"Authorization", "Bearer ts"}, {"Impersonate-User", who}}}
+				if k == 0 {
+					w.Clusters[n].ReviewMode = "hold-sar" // the first cluster's answer is slow
+				}
+				w.Send(c.q)
+				reqs = append(reqs, c)
+				pair = append(pair, c)
+				w.Advance(time.Duration(t.Range(1, 400)) * time.Millisecond)
+			}
+			w.Clusters[up[i]].ReviewMode = ""
+			for _, p := range w.Sc.Points() {
+				if p.Kind == "review" {
+					w.Release(p, UpRespond)
+				}
+			}
+			for g := 0; g < 8 && !(pair[0].q.Done && pair[1].q.Done); g++ {
+				w.Advance(time.Second)
+			}
+			r.Logf("twins %s: %s -> %d, %s -> %d (impersonation: %s=%s %s=%s)", who, up[i], pair[0].q.Status, up[j], pair[1].q.Status,
+				up[i], impHist[up[i]][len(impHist[up[i]])-1].val, up[j], impHist[up[j]][len(impHist[up[j]])-1].val)
 		}
 		w.Boundary()
 	}
@@ -277,7 +320,7 @@ func RunC12(r *sim.Run) {
 			return
 		}
 		// reviews made while this request was being processed go to the request's own cluster
-		for s := q.StartStep; s <= q.EndStep; s++ {
+		for s := q.StartStep; s <= q.EndStep && !c.overlap; s++ {
 			for _, o := range reviewsAtStep[s] {
 				r.Checked("review_sent_to_own_cluster")
 				if o.Cluster != c.owner {
@@ -304,14 +347,18 @@ func RunC12(r *sim.Run) {
 		delete(okUsers, "")
 		if c.imp {
 			allowed := valsWithin(impHist[c.owner], from, w.Now())["allow"]
-			if got.user == "bob" {
+			want := c.impUser
+			if want == "" {
+				want = "bob"
+			}
+			if got.user == want {
 				if !allowed {
 					r.Violate("impersonation_allowed_by_other_cluster", "c12", "request %s to %s (cluster %s) was forwarded as the impersonated user although %s never allowed it within the cache TTL; other clusters' policies: %v", q.ID, c.host, c.owner, c.owner, impHist)
 					return
 				}
 				continue
 			}
-			r.Violate("impersonation_dropped", "c12", "request %s asked to impersonate bob but was forwarded as %q", q.ID, got.user)
+			r.Violate("impersonation_dropped", "c12", "request %s asked to impersonate %s but was forwarded as %q", q.ID, want, got.user)
 			return
 		}
 		if !okUsers[got.user] {
@@ -342,6 +389,7 @@ func RunC12(r *sim.Run) {
 	r.ProbeN("forwarded_checked", nFwd)
 	r.ProbeN("not_forwarded", nDenied)
 	r.ProbeN("alias_moves", moves)
+	r.ProbeN("same_question_to_two_clusters_at_once", twins)
 	r.ProbeN("table_mutations", mutations)
 	r.Nontrivial = nFwd > 1 && nCl > 1
 	r.Sample = map[string]interface{}{"clusters": nCl, "requests": len(reqs), "ttl_success": ttlS.String(), "ttl_failure": ttlF.String(), "ttl_allow": ttlA.String(), "alias_moves": moves}
